@@ -67,6 +67,26 @@ func genC16(c *Ctx, r *rng.R, i int) {
 			kind = "long-prefix"
 		}
 	}
+	if r.Chance(3) { // collections longer than any preallocation hint
+		n := 1025 + r.Intn(80)
+		vs := make([]cty.Value, n)
+		for k := range vs {
+			vs[k] = cty.NumberIntVal(int64(k % 7))
+		}
+		switch r.Intn(7) {
+		case 0, 1, 2:
+			v = cty.ListVal(vs)
+		case 3, 4, 5:
+			v = cty.TupleVal([]cty.Value{cty.ListVal(vs), cty.StringVal("after")})
+		default:
+			m := map[string]cty.Value{}
+			for k := range vs {
+				m[fmt.Sprintf("k%04d", k)] = vs[k]
+			}
+			v = cty.ObjectVal(map[string]cty.Value{"m": cty.MapVal(m), "z": cty.True})
+		}
+		kind = "long-collection"
+	}
 	if !stringsOKSafe(v) || hasHugeNumber(v) {
 		c.Count("skipped_domain")
 		return
